@@ -57,7 +57,7 @@ class Dag:
             node, done = stack.pop()
             if node.id in self.memo:
                 continue
-            if node.op == 'detach':
+            if node.op in ('detach', 'alias'):
                 # value-transparent
                 if node.args[0].id in self.memo:
                     self.memo[node.id] = self.memo[node.args[0].id]
